@@ -312,7 +312,19 @@ func (e *Engine) Explore(fn *ssa.Function, name string) *HarnessResult {
 				mu.Lock()
 				ws := len(hr.SampleTapes) < e.SamplesPerHarness
 				mu.Unlock()
+				tPath := time.Now()
+				q0, d0 := wk.sol.Queries, wk.sol.SolverDur
 				res, pend, funcs := e.runPath(wk, fn, prefix, ws)
+				if el := time.Since(tPath); el > 2*time.Second && os.Getenv("GOSMT_SLOW") != "" {
+					fmt.Fprintf(os.Stderr, "SLOW path %.1fs steps=%d queries=%d solver=%.1fs decisions=%d outcome=%s %s terms=%d send=%.1fs getvalue=%.1fs\n", el.Seconds(), res.Steps, wk.sol.Queries-q0, (wk.sol.SolverDur - d0).Seconds(), len(res.Decisions), res.Outcome, res.Detail, wk.ctx.NumTerms(), wk.sol.SendDur.Seconds(), wk.sol.ValueDur.Seconds())
+					if n := len(res.ForkSites); n > 0 {
+						lo := n - 14
+						if lo < 0 {
+							lo = 0
+						}
+						fmt.Fprintf(os.Stderr, "   last forks: %v\n", res.ForkSites[lo:])
+					}
+				}
 
 				mu.Lock()
 				active--
